@@ -322,6 +322,17 @@ def run(run: Run):
     _borrow(run, 'C11.R8', _c08.r4, _src, _grt(_src))
     run.rule('C11.R9', 'the argument list is unfolded completely whatever the order of scalars and areas')
     run.guard('C11.R9', r9_flatten, run, rt)
+    from . import c03 as _c03x
+    from .common import borrow as _bx
+    from ..grammar import get_grammar as _ggx
+    from ..emission import get_emission as _gex
+    from ..callgraph import get_callgraph as _gcx
+    from ..source import get_source as _gsx
+    run.rule('C11.R10', 'every cell of an area is read through the member of the cell, also outside the used range (shared with C03.R1/R2)')
+    _sx = _gsx()
+    _bx(run, 'C11.R10', _c03x.r1, _sx, _ggx(_sx), _gex(_sx), _gcx(_sx))
+    _bx(run, 'C11.R10', _c03x.r2, _sx, _gcx(_sx))
+    run.floor('C11.R10', 15)
     run.floor('C11.R9', 16)
     run.floor('C11.R8', 50)
     run.floor('C11.R6', 5)
